@@ -389,7 +389,7 @@ theorem World.bindS_eq {W : World} {s : Nat} {t r : Term} (hs : ¬ W.TS s)
     split
     · rfl
     · rename_i hws; rw [hw]
-  · rename_i hnv; exact (by cases hh : walk W.σS t <;> simp_all)
+  · rename_i hnv; exact (by cases hh : walk W.σS t <;> simp_all [hne])
 
 /-- the SLD side binds a variable `a` that has a partner to an untouched variable `s`, which takes
     its place in the correspondence (`X = S` with `X` unbound: the left variable is bound) -/
